@@ -30,6 +30,7 @@ Keys1212 == <<1, 2, 1, 2>>
 NoTtl3 == <<-1, -1, -1>>
 NoTtl4 == <<-1, -1, -1, -1>>
 Ttl3 == <<-1, 1, -1>>
+Ttl4 == <<-1, 1, -1, 2>>
 Res1 == <<1>>
 Res12 == <<1, 2>>
 Res3 == <<3>>
